@@ -71,6 +71,8 @@ fn decode_feed(c: &mut Cur) -> Feed {
         1 => Ctor::Boxed,
         200 => Ctor::BufReader(8192),
         201 => Ctor::BufReader(20000),
+        202 => Ctor::FreshBufReader(8192),
+        203 => Ctor::FreshBufReader(5),
         n => Ctor::BufReader((n as usize - 1).min(64)),
     };
     let n = (c.byte() % 8) as usize;
@@ -111,6 +113,7 @@ pub fn encode_feed(f: &Feed, out: &mut Vec<u8>) {
         Ctor::FromRead => 0,
         Ctor::Boxed => 1,
         Ctor::BufReader(n) => (n.min(64) + 1) as u8,
+        Ctor::FreshBufReader(n) => if n > 64 { 202 } else { 203 },
     });
     let steps: Vec<&Step> = f.sched.steps.iter().take(7).collect();
     out.push(steps.len() as u8);
